@@ -318,3 +318,11 @@ Proof.
   intros W E Eo. unfold do_lincomb1. change (@nzero VR _) with (Some 0).
   erewrite do_lincomb_clean by eassumption. rewrite rlin_a0. reflexivity.
 Qed.
+Lemma ext_len s s' m : ext s s' m -> (length s <= length s')%nat.
+Proof. intros (L & _). exact L. Qed.
+Lemma ext_same s s' m i : ext s s' m -> (i < length s)%nat -> ~ In i m -> rd s' i = rd s i.
+Proof. intros (_ & U & _). apply U. Qed.
+Lemma ext_space s s' m i sp d : ext s s' m -> rd s i = Some (sp, d) -> exists d', rd s' i = Some (sp, d').
+Proof. intros (_ & _ & S). apply S. Qed.
+Global Opaque ext.
+Ltac splits := repeat match goal with |- _ /\ _ => split end.
